@@ -282,6 +282,9 @@ pub fn delivery(h: &Hist) -> Vec<Finding> {
         let mut seen: BTreeSet<u64> = BTreeSet::new();
         for d in &s.deliveries {
             match h.acc.get(&d.id) {
+                // a send that was still inside its call when the execution was torn down may have
+                // published its value: nothing can be said about it
+                None if h.ex.stats.inflight_sends.contains(&d.id) => {}
                 None => {
                     let was_refused = h.refused.iter().any(|r| r.0 == d.id);
                     out.push(h.base_facts(Finding::new(
@@ -443,7 +446,9 @@ pub fn capacity(h: &Hist) -> Vec<Finding> {
                 continue;
             }
             let sent = h.acc.values().filter(|v| v.t1 <= t && v.t0 > s.c1).count();
-            let recvd = s.deliveries.iter().filter(|d| d.t0 <= t).count();
+            // receives that had begun but never returned (execution torn down) count as begun
+            let recvd = s.deliveries.iter().filter(|d| d.t0 <= t).count()
+                + h.ex.stats.inflight_recvs.iter().filter(|(st, t0)| *st == s.id && *t0 <= t).count();
             if sent > recvd + h.n {
                 out.push(
                     h.base_facts(Finding::new(
@@ -503,7 +508,8 @@ pub fn hangup(h: &Hist) -> Vec<Finding> {
                 if v.t1 < *e0 {
                     let d = s.deliveries.iter().find(|d| d.id == v.id);
                     let bad = match d {
-                        None => true,
+                        // "never delivered" can only be said of an execution that ran to completion
+                        None => h.completed(),
                         Some(d) => d.t0 > *e1,
                     };
                     if bad {
@@ -812,7 +818,7 @@ pub fn unsubscribe_values(h: &Hist) -> Vec<Finding> {
             .filter(|c| c.stream == s.id && matches!(c.kind, CallKind::DropRx | CallKind::UnsubRx))
             .collect();
         let total_handles = s.handles.len();
-        for c in rem.iter().filter(|c| c.kind == CallKind::UnsubRx) {
+        for c in rem.iter().filter(|c| c.kind == CallKind::UnsubRx && h.completed()) {
             let b = match c.res {
                 Res::Bool(Some(b)) => b,
                 _ => continue,
